@@ -292,6 +292,25 @@ def run_case(case, ctx):
                 ctx.check("C13.argument-form", bool(ok), {"form": form}, tags)
             except Exception as e:  # noqa
                 ctx.check("C13.argument-form", False, {"form": form, "exc": repr(e)[:200]}, tags)
+    # a caller may keep ONE buffer per angle and overwrite it between calls: the result must follow the contents, not the object
+    if nz and case["eps"] in (1e-4, 0.05):
+        try:
+            bufs = [np.array(a[::-1], float) for a in ang]  # other directions first (reversed order)
+            use = bufs[:1] if cls == "axisym" else bufs
+            first = np.array(drop.interface_distance(*use), float)
+            drop.interface_position(*bufs)
+            drop.interface_curvature(*use)
+            for b, a in zip(bufs, ang):
+                b[...] = a  # in-place update of the same array objects
+            again = np.array(drop.interface_distance(*use), float)
+            pos_again = np.asarray(drop.interface_position(*bufs), float)
+            curv_again = np.asarray(drop.interface_curvature(*use), float)
+            curv_fresh = np.asarray(drop.interface_curvature(*([ang[0]] if cls == "axisym" else list(ang))), float)
+            ctx.op(7)
+            ok = again.shape == np.shape(r_lib) and bool(np.array_equal(again, np.asarray(r_lib))) and bool(np.allclose(pos_again, want, rtol=0, atol=1e-12 * R)) and bool(np.array_equal(curv_again, curv_fresh))
+            ctx.check("C13.argument-form", bool(ok), {"form": "buffer overwritten in place between calls", "first_call_equals_reversed": bool(np.array_equal(first[::-1], np.asarray(r_lib)))}, tags)
+        except Exception as e:  # noqa
+            ctx.check("C13.argument-form", False, {"form": "buffer overwritten in place between calls", "exc": repr(e)[:200]}, tags)
     # scalar arguments work as well
     try:
         p1 = drop.interface_position(*[float(a[3]) for a in ang])
